@@ -633,7 +633,7 @@ def fit(rnd, t, names, target_names, by_name):
         if i < len(names):
             items.append((("col", names[i]), names[i]))
         else:
-            items.append((("lit", None), fresh[i]))
+            items.append((("lit", None), f"p{i}"))
     return ("ops", (("select", tuple(items)),), t)
 
 
